@@ -583,3 +583,117 @@ PROPS["C20"] = {"generate": c20_generate, "strata": hist_strata,
                 "nontrivial": lambda rec: "ERR" in json.dumps(rec["lean"]) or '"ok": false' in json.dumps(rec["lean"]),
                 "rule": "histories of graphs, divisors, configurations, scripts and orientations with ~40% invalid requests of every listed kind (unknown vertex, non-edge, sink in a firing set, duplicate entry, loop, non-positive amount/multiplicity, mismatched vertex sets, partial orientation where a full one is needed), mixed valid/invalid sets, placed anywhere; the digest of the target object and of the graph/divisor it refers to is compared after every request",
                 "theorems": ["set_fire_refused_iff", "cfg_fire_refuses_sink", "moves_refuse_unknown", "transfer_refuses_nonpositive", "divisor_refused_is_identity", "script_refused_is_identity", "graph_refused_is_identity", "orientation_refused_is_identity", "needs_full", "needs_full_refuses", "divisor_ctor_rejects", "orientation_ctor_rejects"]}
+
+
+# ---- C16
+def c16_generate(rng, tier):
+    k = count(tier, 60, 800)
+    out = []
+    def add(scns, cmp_keys, rel):
+        out.extend(tag_cmp(scns, cmp_keys, rel=rel))
+    add(gen_ewd_cases(rng, k, viz_share=0.2), ["arg", "argtotal", "graph"], ["argtotal", "graph"])
+    add(genhist.gen_api(rng, k), ["is_winnable_arg", "q_reduction_arg", "argtotal", "graph"], ["argtotal", "graph"])
+    add(genhist.gen_rank(rng, k // 2, nmax=4, maxdeg=4), ["arg", "argtotal", "graph"], ["argtotal", "graph"])
+    add(genhist.gen_dhar(rng, k), ["after_debt", "after_fire", "argtotal", "graph"], ["argtotal", "graph"])
+    add(genhist.gen_lin_equiv(rng, k), ["D1_after", "D2_after", "graph"], None)
+    add(genhist.gen_play(rng, k), ["P_after", "graph"], None)
+    add(genhist.gen_dhar_strategy(rng, k), ["base_after"], None)
+    add(genhist.gen_greedy(rng, k), ["arg", "graph"], None)
+    add(genhist.gen_lap(rng, k), ["D_after", "s_after", "graph"], None)
+    add(genhist.gen_config(rng, k // 2, nmax=4), ["deg_after", "graph"], None)
+    add(genhist.gen_div_arith(rng, k), ["A_after", "B_after", "graph"], None)
+    add(genhist.gen_gonality(rng, k // 3, nmax=4), ["graph"], None)
+    add(genhist.gen_winnable_hist(rng, k // 2), ["graph"], None)
+    # repeated calls on the same object: every scenario above may carry `warmup` (same graph object asked twice)
+    return out
+
+
+def c16_judge(rec):
+    """in-place family: the caller's divisor may change only within its degree"""
+    s = rec["scn"]
+    fails = []
+    for hs, p in rec["py"].items():
+        if not isinstance(p, dict):
+            continue
+        for key, orig in (("arg", s.get("deg")), ("is_winnable_arg", s.get("deg")), ("q_reduction_arg", s.get("deg")),
+                          ("after_debt", s.get("deg")), ("after_fire", s.get("deg"))):
+            if key in p and isinstance(p[key], list) and orig is not None and sum(p[key]) != sum(orig):
+                fails.append(f"{key}: total degree changed from {sum(orig)} to {sum(p[key])}")
+    return fails
+
+
+NONTRIVIAL_RULE["C16"] = "non-trivial: n>=3 with a multi-edge or cycle"
+PROPS["C16"] = {"generate": c16_generate, "judge": c16_judge, "strata": algo_strata, "nontrivial": algo_nontrivial,
+                "rule": "every public analysis entry point (EWD both modes, is_winnable, q_reduction, is_q_reduced, rank, Dhar runs, linear_equivalence, gonality games and strategy tests, greedy, Laplacian apply, configuration queries, divisor arithmetic) on generated inputs, a share of them asked twice on the same graph object; compared: the digest of every argument divisor/script/graph after the call (pure family: must be exactly the input; in-place family: the model's reduced divisor, same degree, cached total untouched)",
+                "theorems": ["graph_never_written", "ewd_post_state", "dhar_post_state", "cached_total_still_right"]}
+
+
+# ---- C18
+def c18_generate(rng, tier):
+    a = gen_ewd_cases(rng, count(tier, 200, 3000), nmax=count(tier, 6, 7), viz_share=1.0)
+    a += gen_chain_debt_cases(rng, count(tier, 40, 600), viz_share=1.0)
+    b = []
+    for s in a:
+        t = dict(s)
+        t["viz"] = False
+        b.append(t)
+    tag_cmp(a, ["verdict", "D", "orient", "trace", "q"], rel=["verdict", "D", "orient"])
+    tag_cmp(b, ["verdict", "D", "orient"])
+    for i, (x, y) in enumerate(zip(a, b)):
+        x["_group"] = y["_group"] = i
+    c = tag_cmp(genhist.gen_elements(rng, count(tier, 300, 4000)), None)
+    d = tag_cmp([dict(s, viz=True) for s in genhist.gen_dhar(rng, count(tier, 100, 1000))], ["borrows", "after_debt"], rel=["after_debt"])
+    return a + b + c + d
+
+
+def c18_judge(rec):
+    s = rec["scn"]
+    fails = []
+    for hs, p in rec["py"].items():
+        if not isinstance(p, dict):
+            continue
+        if s["op"] == "ewd" and s.get("viz") and isinstance(p.get("trace"), list):
+            if p.get("D") is not None and p["trace"] and p["trace"][-1] != p["D"]:
+                fails.append("last recorded divisor differs from the returned one")
+            if any(sum(x) != sum(s["deg"]) for x in p["trace"]):
+                fails.append("a recorded snapshot has another total degree than the input")
+        if s["op"] == "ewd" and p.get("trace") == "ALIASED":
+            fails.append("recorded snapshots change when the returned divisor is modified afterwards")
+        if s["op"] == "elements":
+            n = s["n"]
+            tot = sum(k for _, _, k in s["edges"])
+            for kind in ("graph", "divisor", "orientation", "ewd"):
+                if len(p.get(kind + "_nodes", [])) != n:
+                    fails.append(f"{kind}: {len(p.get(kind + '_nodes', []))} node elements for {n} vertices")
+                if len(p.get(kind + "_edges", [])) != tot:
+                    fails.append(f"{kind}: {len(p.get(kind + '_edges', []))} edge elements for total multiplicity {tot}")
+            if p.get("endpoints_mismatch"):
+                fails.append("an edge element's endpoints differ from its id")
+    return fails
+
+
+def c18_group_judge(recs):
+    groups = {}
+    for r in recs:
+        g = r["scn"].get("_group")
+        if g is not None and r["scn"]["op"] == "ewd":
+            groups.setdefault(g, []).append(r)
+    bad = []
+    for g, rs in groups.items():
+        if len(rs) == 2:
+            a, b = [next(iter(r["py"].values())) for r in rs]
+            if isinstance(a, dict) and isinstance(b, dict):
+                for k in ("verdict", "D", "orient", "indeg", "outdeg"):
+                    if a.get(k) != b.get(k):
+                        bad.append((rs[0], [f"{k} differs between recording on and off: {a.get(k)} vs {b.get(k)}"]))
+                        break
+            elif a != b:
+                bad.append((rs[0], [f"outcome differs between recording on and off: {a} vs {b}"]))
+    return bad
+
+
+NONTRIVIAL_RULE["C18"] = "non-trivial: n>=3 with a multi-edge or cycle"
+PROPS["C18"] = {"generate": c18_generate, "judge": c18_judge, "group_judge": c18_group_judge, "strata": algo_strata,
+                "nontrivial": lambda rec: graph_nontrivial(rec["scn"]),
+                "rule": "EWD on the same input with recording on and off (results compared with each other and with the model; the recorded history compared snapshot by snapshot with the model's trace, its independence tested by mutating the returned divisor afterwards); Dhar runs with a recorder; element lists of graphs, divisors, partial orientations and EWD steps for hyphen-free names, compared element by element with the model's",
+                "theorems": ["recording_does_not_perturb", "trace_snapshots", "one_node_per_vertex", "edge_elements_spec", "arrows_iff_oriented"]}
